@@ -25,6 +25,9 @@ type h3opts struct {
 	Parts     []int `json:"-"`
 	NParts    int   `json:"data_frames"`
 	Head      bool  `json:"head"`
+	Raw        bool `json:"raw_peer,omitempty"`     // served by the frame-level origin (h3raw.go)
+	Short      int  `json:"short"`                  // >= 0: the last DATA frame announces its length but only Short bytes are sent before the FIN
+	FinLaterMs int  `json:"fin_later_ms,omitempty"` // the FIN leaves this long after the partial data (0: together with it)
 }
 
 type h3srv struct {
@@ -123,6 +126,8 @@ func (s *h3srv) handle(w http.ResponseWriter, r *http.Request) {
 	}
 }
 
+var rawH3 *h3raw
+
 func newH3Client(decode bool) *req.Client {
 	c := req.C().SetTimeout(60 * time.Second).EnableInsecureSkipVerify().EnableForceHTTP3()
 	if !decode {
@@ -165,6 +170,13 @@ func planH3(rng *hk.Rand, a *aresp, o *h3opts, method string) {
 }
 
 func (x *exch) runH3(srv *h3srv, c *req.Client, outDir string) {
+	if x.H3.Raw {
+		id := nextID()
+		rawH3.scripts.Store(id, x)
+		defer rawH3.scripts.Delete(id)
+		x.s = perform(c, x, "https://"+rawH3.addr+"/x/"+id+"/1", outDir)
+		return
+	}
 	id := nextID()
 	srv.scripts.Store(id, x)
 	defer srv.scripts.Delete(id)
